@@ -9,8 +9,8 @@ META = dict(
     level_note='Trusted: translator, shims, CBMC; floating-point expression trees are compared by structure (same operator tree on the '
                'same operands), so an algebraically equal re-association is reported as undecided after native replay, not as a violation; '
                'Surface::local_value and NaturalCoordinate::get_surface_point are contract stubs (any value).',
-    scope='get_temperature of uniform / adiabatic / linear for continental plate, oceanic plate, mantle layer, subducting plate, fault; chapman geotherm; half-space cooling model of the oceanic plate (age = ridge distance / spreading velocity); plume uniform and Gaussian temperature; uniform raw velocity and uniform grains of all six feature families; smooth composition of the subducting plate and of the fault (uniform composition of all families: C02); the ridge look-up Utilities::calculate_ridge_distance_and_spreading behind half-space / plate cooling; parse_entries of 18 area-feature models (own depth range = extremes of the depth surfaces, shared with C07)',
-    not_covered=['the documented "min distance fault center" of the fault smooth composition (unused by the code, not part of the contract)', 'tian2019 water content, mass conserving slab temperature, random models (no closed form documented)', 'the Fourier-sum bodies of the plate model and the constant-age plate model (loops over the summation terms)'],
+    scope='get_temperature of uniform / adiabatic / linear for continental plate, oceanic plate, mantle layer, subducting plate, fault; chapman geotherm; half-space cooling model of the oceanic plate (age = ridge distance / spreading velocity); constant-age plate model of the oceanic plate (linear start profile, each of the 100 series terms, adiabatic sentinel); plume uniform and Gaussian temperature; uniform raw velocity and uniform grains of all six feature families; smooth composition of the subducting plate and of the fault (uniform composition of all families: C02); the ridge look-up Utilities::calculate_ridge_distance_and_spreading behind half-space / plate cooling; parse_entries of 18 area-feature models (own depth range = extremes of the depth surfaces, shared with C07)',
+    not_covered=['the documented "min distance fault center" of the fault smooth composition (unused by the code, not part of the contract)', 'tian2019 water content polynomials (the selection logic around them is under contract in C02), mass conserving slab temperature, random models (no closed form documented)', 'the Fourier-sum bodies of the ridge-age plate models (oceanic plate_model.cc, subducting plate plate_model.cc); for the constant-age plate model the sum is proved term by term (per-iteration lemma in the real loop + trip count), the closed statement "result = sum of 100 terms" follows by induction outside the tool'],
     enforced_elsewhere={},
 )
 
@@ -68,6 +68,45 @@ UNITS.append(dict(
     outline_fp='all', defines={'FAM': 'ContinentalPlate', 'KIND_CHAPMAN': 1, 'WB_VEC_CAP': 2},
     expect_fail=['REACHABILITY-GUARD'], spurious_if_oracle_holds=True))
 
+
+
+# plate model constant age (oceanic plate): range guard, sentinel, and the documented series term by term
+_surf = ['Objects_Surface_local_value', 'Objects_NaturalCoordinate_get_surface_point']
+UNITS.append(dict(
+    name='oceanic_plate_T_plate_constant_age', enforce='PCA', contracts='c05_plate_constant_age.c', harness='h_plate_constant_age',
+    targets=[dict(tu='source/world_builder/features/oceanic_plate_models/temperature/plate_model_constant_age.cc',
+                  qual='WorldBuilder::Features::OceanicPlateModels::Temperature::PlateModelConstantAge::get_temperature', cname='PCA')],
+    stub=_surf, nothrow=['Objects_NaturalCoordinate_get_surface_point'], replace=_surf,
+    outline_fp='all', defines={'WB_VEC_CAP': 2}, expect_fail=['REACHABILITY-GUARD'],
+    inserts=[(r'int i = 1;', 'PCA_INIT'),
+             (r'temperature = E_h[0-9a-f]+\(temperature, ', 'PCA_STEP'),
+             (r'return Features_FeatureUtilities_apply_operation\(this_->operation, temperature_, temperature\);', 'PCA_FINAL')],
+    canaries=[(r'\(i < \(sommation_number \+ 1\)\)', '(i < sommation_number)', 'last term of the series dropped'),
+              (r'\(\(double\)i\), G_Consts_PI, depth, this_->max_depth', '((double)i), G_Consts_PI, depth, max_depth_local', 'sine argument scaled by the local instead of the global max depth'),
+              (r'\(bottom_temperature_local < \(\(double\)0\)\)', '(bottom_temperature_local <= ((double)0))', 'bottom temperature 0 treated as the adiabatic sentinel')],
+    loops={('PCA', 1): dict(
+        contract='__CPROVER_assigns(i, temperature, g_di, g_expect, g_iters)\n'
+                 '__CPROVER_loop_invariant(1 <= i && i <= 101 && g_iters == i - 1 && SAMEL(temperature, g_expect))\n'
+                 '__CPROVER_decreases(101 - i)')}))
+
+
+# plate model (oceanic plate, ridge age): same scheme as the constant-age model, age from the ridge look-up
+_PMSTUBS = ['Objects_Surface_local_value', 'Objects_NaturalCoordinate_get_surface_point', 'Utilities_calculate_ridge_distance_and_spreading', 'Objects_NaturalCoordinate_ctor__Point_3_CoordinateSystems_Interf']
+UNITS.append(dict(
+    name='oceanic_plate_T_plate_model', enforce='PM', contracts='c05_plate_model.c', harness='h_plate_model',
+    targets=[dict(tu='source/world_builder/features/oceanic_plate_models/temperature/plate_model.cc',
+                  qual='WorldBuilder::Features::OceanicPlateModels::Temperature::PlateModel::get_temperature', cname='PM')],
+    stub=_PMSTUBS, nothrow=['Objects_NaturalCoordinate_get_surface_point'], replace=_PMSTUBS,
+    outline_fp='all', defines={'WB_VEC_CAP': 2, 'WB_CAP_vec_double': 4}, expect_fail=['REACHABILITY-GUARD'], timeout=600,
+    inserts=[(r'int i = 1;', 'PM_INIT'),
+             (r'temperature = E_h[0-9a-f]+\(temperature, ', 'PM_STEP'),
+             (r'return Features_FeatureUtilities_apply_operation\(this_->operation, temperature_, temperature\);', 'PM_FINAL')],
+    canaries=[(r'\(i < \(summation_number \+ 1\)\)', '(i < summation_number)', 'last term of the series dropped'),
+              (r'double age = E_div_a_a\(ridge_parameters\.data\[wb_idx\(\(\(unsigned long\)1\)', 'double age = E_div_a_a(ridge_parameters.data[wb_idx(((unsigned long)2)', 'age from the subducting velocity slot instead of the ridge distance')],
+    loops={('PM', 1): dict(
+        contract='__CPROVER_assigns(i, temperature, g_di, g_expect, g_iters)\n'
+                 '__CPROVER_loop_invariant(1 <= i && i <= 101 && g_iters == i - 1 && SAMEL(temperature, g_expect))\n'
+                 '__CPROVER_decreases(101 - i)')}))
 
 # ----------------------------------------------------------------------------- native replay oracle
 import math, random, json
